@@ -48,7 +48,8 @@ theorem scaleOps_distinct : ∀ l ∈ scaleOps, ∀ l' ∈ A64.shiftOps, l' ≠ 
 theorem scaleOps_head : ∀ l ∈ scaleOps, headAlpha l = true := by decide
 
 /-- a shift operator as written (any case) is read as its lower-case form -/
-theorem shiftOp_match (g op after : Txt) (hg : Blank g) (hop : lower op ∈ scaleOps) :
+theorem shiftOp_match (g op after : Txt) (hg : Blank g) (hop : lower op ∈ scaleOps)
+    (hend : ∀ c r, after = c :: r → isWordEndC c = false) :
     shiftOp (g ++ (op ++ after)) = some (lower op, after) := by
   have hhead : ∃ c w, op = c :: w ∧ isWs c = false := by
     have := scaleOps_head _ hop
@@ -58,7 +59,9 @@ theorem shiftOp_match (g op after : Txt) (hg : Blank g) (hop : lower op ∈ scal
       refine ⟨c, w, rfl, alpha_not_ws c (alpha_of_lowerC_alpha c ?_)⟩
       simpa [lower, headAlpha] using this
   obtain ⟨c, w, hcw, hws⟩ := hhead
-  unfold shiftOp
+  rw [shiftOp_eq]
+  suffices h : clitOr true A64.shiftOps (g ++ (op ++ after)) = some (lower op, after) by
+    rw [h]; exact wordEnd_stop _ after hend
   apply clitOr_pointwise A64.shiftOps _ (lower op) after (scaleOps_in_shiftOps _ hop)
   intro l' hl'
   have hcl : clit true l' (g ++ (op ++ after)) = dropPrefixCI (op ++ after) l' := by
@@ -142,6 +145,31 @@ def amtText (a : Option (Bool × Nat)) (ga : Txt) : Txt :=
   | some x => ga ++ (optHash x.1 ++ showNat x.2)
   | none => []
 
+/-- an amount without `#` is separated from the operator by at least one blank (`lsl 3`; `lsl3` is a name) -/
+def AmtGapOk (a : Option (Bool × Nat)) (ga : Txt) : Prop := ∀ x, a = some x → x.1 = false → ga ≠ []
+
+theorem blank_not_wordEnd (b : Nat) (h : isBlankC b = true) : isWordEndC b = false := by
+  simp [isBlankC] at h; rcases h with rfl | rfl <;> decide
+
+/-- behind the shift operator of an index register no word character follows -/
+theorem amtText_wordEnd (a : Option (Bool × Nat)) (ga gv E : Txt) (hga : Blank ga) (hgv : Blank gv)
+    (hgap : AmtGapOk a ga) : ∀ c r, amtText a ga ++ (gv ++ 93 :: E) = c :: r → isWordEndC c = false := by
+  intro c r h
+  cases a with
+  | none =>
+    simp only [amtText, List.nil_append] at h
+    cases gv with
+    | nil => simp at h; rw [← h.1]; decide
+    | cons b g' => simp at h; rw [← h.1]; exact blank_not_wordEnd b hgv.cons.1
+  | some x =>
+    simp only [amtText] at h
+    cases ga with
+    | cons b g' => simp at h; rw [← h.1]; exact blank_not_wordEnd b hga.cons.1
+    | nil =>
+      cases hx : x.1 with
+      | false => exact absurd rfl (hgap x rfl hx)
+      | true => simp [hx, optHash] at h; rw [← h.1]; decide
+
 theorem intText_amt (h : Bool) (n : Nat) : intText ⟨h, false, false, false, n⟩ = optHash h ++ showNat n := by
   simp [intText, optNeg]
 
@@ -169,7 +197,7 @@ theorem amt_parse (a : Option (Bool × Nat)) (ga gv E : Txt) (hga : Blank ga) (h
 
 /-- `, op amount` behind an index register -/
 theorem shiftTail_index (gw g2 op : Txt) (a : Option (Bool × Nat)) (ga gv E : Txt) (hgw : Blank gw)
-    (hg2 : Blank g2) (hga : Blank ga) (hgv : Blank gv) (hop : lower op ∈ scaleOps) :
+    (hg2 : Blank g2) (hga : Blank ga) (hgv : Blank gv) (hop : lower op ∈ scaleOps) (hgap : AmtGapOk a ga) :
     ∃ rA, shiftTail (gw ++ 44 :: (g2 ++ (op ++ (amtText a ga ++ (gv ++ 93 :: E))))) =
         some ((lower op, amtTok a), rA) ∧ skipWs rA = 93 :: E ∧
       rA.length ≤ (amtText a ga ++ (gv ++ 93 :: E)).length := by
@@ -178,7 +206,7 @@ theorem shiftTail_index (gw g2 op : Txt) (a : Option (Bool × Nat)) (ga gv E : T
   have hlit : lit true [44] (gw ++ 44 :: (g2 ++ (op ++ (amtText a ga ++ (gv ++ 93 :: E))))) =
       some (g2 ++ (op ++ (amtText a ga ++ (gv ++ 93 :: E)))) := by
     simp [lit, sk_true, skipWs_blank_append gw _ hgw, skipWs_cons 44 _ (by decide : isWs 44 = false), dropPrefix]
-  simp only [shiftTail, hlit, shiftOp_match g2 op _ hg2 hop, hA]
+  simp only [shiftTail, hlit, shiftOp_match g2 op _ hg2 hop (amtText_wordEnd a ga gv E hga hgv hgap), hA]
 
 /-! ### the part between base and closing bracket -/
 theorem memreg_word (r : RegA) (hr : MemRegOk r) :
@@ -208,7 +236,8 @@ theorem lit_comma_bracket (r : Txt) (E : Txt) (h : skipWs r = 93 :: E) : lit tru
 
 /-- **index register** (with optional shift) between base and closing bracket -/
 theorem memMid_idx (r : RegA) (hr : MemRegOk r) (s : Option ShiftW) (hs : ShiftOk s) (g gw g2 ga gv E : Txt)
-    (hg : Blank g) (hgw : Blank gw) (hg2 : Blank g2) (hga : Blank ga) (hgv : Blank gv) :
+    (hg : Blank g) (hgw : Blank gw) (hg2 : Blank g2) (hga : Blank ga) (hgv : Blank gv)
+    (hgap : ∀ x, s = some x → AmtGapOk x.2 ga) :
     ∃ r', memMid (g ++ (regText r ++ (shiftTextW s gw g2 ga ++ (gv ++ 93 :: E)))) =
         some (.idx (idxTok r s), r') ∧ skipWs r' = 93 :: E := by
   obtain ⟨c, w, hcw, hal, hw⟩ := memreg_word r hr
@@ -235,7 +264,9 @@ theorem memMid_idx (r : RegA) (hr : MemRegOk r) (s : Option ShiftW) (hs : ShiftO
     rw [this]
   | some x =>
     have hop := hs x rfl
-    obtain ⟨rA, hst, hskA, hlenA⟩ := shiftTail_index gw g2 x.1 x.2 ga gv E hgw hg2 hga hgv hop
+    have hgapx := hgap x rfl
+    have hwe := amtText_wordEnd x.2 ga gv E hga hgv hgapx
+    obtain ⟨rA, hst, hskA, hlenA⟩ := shiftTail_index gw g2 x.1 x.2 ga gv E hgw hg2 hga hgv hop hgapx
     simp only [shiftTextW, List.append_assoc, List.cons_append]
     -- W: everything behind the register
     generalize hW : gw ++ 44 :: (g2 ++ (x.1 ++ (amtText x.2 ga ++ (gv ++ 93 :: E)))) = W at hst ⊢
@@ -267,14 +298,14 @@ theorem memMid_idx (r : RegA) (hr : MemRegOk r) (s : Option ShiftW) (hs : ShiftO
       have hlit : lit true [44] (gw ++ 44 :: (g2 ++ (x.1 ++ (amtText x.2 ga ++ (gv ++ 93 :: E))))) =
           some (g2 ++ (x.1 ++ (amtText x.2 ga ++ (gv ++ 93 :: E)))) := by
         simp [lit, sk_true, skipWs_blank_append gw _ hgw, skipWs_cons 44 _ (by decide : isWs 44 = false), dropPrefix]
-      simp only [shiftTail, hlit, shiftOp_match g2 x.1 _ hg2 hop, hA'] at h1
+      simp only [shiftTail, hlit, shiftOp_match g2 x.1 _ hg2 hop hwe, hA'] at h1
       simpa using h1
     subst hrAeq
     have har : arithP (g ++ (regText r ++ W)) =
         some ((.ident ⟨none, c :: w, none⟩, lower x.1, amtTok x.2), rA') := by
       have hlit : lit true [44] (skipWs W) = some (g2 ++ (x.1 ++ (amtText x.2 ga ++ (gv ++ 93 :: E)))) := by
         rw [lit_skip]; simp [lit, sk_true, hskW, dropPrefix]
-      simp only [arithP, himm, hlit, shiftOp_match g2 x.1 _ hg2 hop, hA']
+      simp only [arithP, himm, hlit, shiftOp_match g2 x.1 _ hg2 hop hwe, hA']
     have hlen1 : rA'.length ≤ (skipWs W).length := by
       rw [hskW]; simp only [List.length_cons, List.length_append] at hlenA ⊢; omega
     refine ⟨rA', ?_, hskA⟩
@@ -379,6 +410,13 @@ theorem innerOk_cons {p : Piece} {ps : List Piece} {gs : List Txt} (h : InnerOk 
   | nil => exact absurd h (by simp [InnerOk])
   | cons g gs' => exact ⟨g, gs', rfl, h.1, h.2.2⟩
 
+/-- the same, keeping the requirement of a non-empty gap -/
+theorem innerOk_cons' {p : Piece} {ps : List Piece} {gs : List Txt} (h : InnerOk (p :: ps) gs) :
+    ∃ g gs', gs = g :: gs' ∧ Blank g ∧ (p.2 = 2 → g ≠ []) ∧ InnerOk ps gs' := by
+  cases gs with
+  | nil => exact absurd h (by simp [InnerOk])
+  | cons g gs' => exact ⟨g, gs', rfl, h.1, h.2.1, h.2.2⟩
+
 theorem innerOk_append (ps1 ps2 : List Piece) (gs : List Txt) (h : InnerOk (ps1 ++ ps2) gs) :
     ∃ gs1 gs2, InnerOk ps1 gs1 ∧ InnerOk ps2 gs2 ∧
       joinInner (ps1 ++ ps2) gs = joinInner ps1 gs1 ++ joinInner ps2 gs2 := by
@@ -478,14 +516,15 @@ theorem mid_step (mid : MemMidA) (hmid : MidOk mid) (gs : List Txt) (hgs : Inner
     obtain ⟨gc, gs1, rfl, hgc, h1⟩ := innerOk_cons hgs
     obtain ⟨g', gs2, rfl, hg', h2⟩ := innerOk_cons h1
     -- the shift part, whatever its layout, has the shape `shiftTextW`
-    have hshape : ∃ gw g2 ga, Blank gw ∧ Blank g2 ∧ Blank ga ∧
+    have hshape : ∃ gw g2 ga, Blank gw ∧ Blank g2 ∧ Blank ga ∧ (∀ x, toW s = some x → AmtGapOk x.2 ga) ∧
         joinInner (midPieces (.idx r s)) (gc :: g' :: gs2) ++ (gv ++ 93 :: E) =
           gc ++ 44 :: (g' ++ (regText r ++ (shiftTextW (toW s) gw g2 ga ++ (gv ++ 93 :: E)))) := by
       cases s with
       | none =>
         have : gs2 = [] := h2
         subst this
-        exact ⟨[], [], [], blank_nil, blank_nil, blank_nil, by simp [midPieces, joinInner, toW, shiftTextW]⟩
+        exact ⟨[], [], [], blank_nil, blank_nil, blank_nil, by simp [toW],
+          by simp [midPieces, joinInner, toW, shiftTextW]⟩
       | some sh =>
         obtain ⟨gw, gs3, rfl, hgw, h3⟩ := innerOk_cons h2
         obtain ⟨g2, gs4, rfl, hg2, h4⟩ := innerOk_cons h3
@@ -495,22 +534,27 @@ theorem mid_step (mid : MemMidA) (hmid : MidOk mid) (gs : List Txt) (hgs : Inner
           have : gs4 = [] := h4
           subst this
           exact ⟨gw, g2, [], hgw, hg2, blank_nil,
+            by intro x hx y hy; simp [toW] at hx; rw [← hx] at hy; simp [ha] at hy,
             by simp [midPieces, joinInner, toW, shiftTextW, ha, amtText, List.append_assoc]⟩
         | some a =>
           rw [ha] at h4
-          obtain ⟨ga, gs5, rfl, hga, h5⟩ := innerOk_cons h4
+          obtain ⟨ga, gs5, rfl, hga, hne, h5⟩ := innerOk_cons' h4
           have : gs5 = [] := h5
           subst this
-          exact ⟨gw, g2, ga, hgw, hg2, hga,
+          refine ⟨gw, g2, ga, hgw, hg2, hga, ?_,
             by simp [midPieces, joinInner, toW, shiftTextW, ha, amtText, amtPiece, List.append_assoc]⟩
-    obtain ⟨gw, g2, ga, hgw, hg2, hga, htext⟩ := hshape
+          intro x hx y hy hy1
+          simp [toW] at hx; rw [← hx] at hy; simp [ha] at hy
+          apply hne
+          simp [amtPiece, hy, hy1]
+    obtain ⟨gw, g2, ga, hgw, hg2, hga, hgap, htext⟩ := hshape
     rw [htext]
     have hsW : ShiftOk (toW s) := by
       intro x hx
       cases s with
       | none => simp [toW] at hx
       | some sh => simp [toW] at hx; rw [← hx]; exact hs sh rfl
-    obtain ⟨r', hmm, hsk⟩ := memMid_idx r hr (toW s) hsW g' gw g2 ga gv E hg' hgw hg2 hga hgv
+    obtain ⟨r', hmm, hsk⟩ := memMid_idx r hr (toW s) hsW g' gw g2 ga gv E hg' hgw hg2 hga hgv hgap
     refine ⟨stops_gap_comma _ gc _ hgc (by decide), ?_, r', ?_, hsk⟩
     · exact shiftTail_comma gc _ hgc (memreg_noShift r hr g' _ hg')
     · rw [optLit_gap_comma gc _ hgc, optP_some true memMid _ _ _ hmm]; rfl
